@@ -427,7 +427,10 @@ func (s *LegacyServer) Revocation(ctx context.Context, r *ClientRequest[oidc.Rev
 		}
 	}
 	if doDecrypt {
-		tokenID, userID, ok := getTokenIDAndSubjectForRevocation(ctx, s.provider, r.Data.Token)
+		tokenID, userID, ok, err := getTokenIDAndSubjectForRevocation(ctx, s.provider, r.Data.Token)
+		if err != nil {
+			return nil, RevocationError(err)
+		}
 		if ok {
 			r.Data.Token = tokenID
 			subject = userID
